@@ -487,6 +487,8 @@ type c06Replay struct {
 	Reqs []c06Req `json:"requests,omitempty"`
 	// apikey-lib
 	Lib *c06LibCase `json:"lib_case,omitempty"`
+	// libserver
+	Srv *c06SrvCase `json:"libserver_case,omitempty"`
 	// lock
 	Events []string `json:"events,omitempty"`
 	// sched
@@ -914,6 +916,13 @@ func TestVerif_C06(t *testing.T) {
 				res.Violate(c06LibKey(c, kind),
 					fmt.Sprintf("%s -> status %d, next handler ran=%v [%s]", c, status, ran, kind), rp)
 			}
+		case "libserver":
+			kind, detail := c06SrvRun(*rp.Srv)
+			fmt.Fprintf(stdout, "replay %s -> [%s] %s\n", *rp.Srv, kind, detail)
+			if kind != "" {
+				ok = true
+				res.Violate(c06SrvKey(*rp.Srv, kind), fmt.Sprintf("%s: %s", *rp.Srv, detail), rp)
+			}
 		case "lock":
 			ok = c06ReplayLock(rp, res, stdout)
 		case "sched":
@@ -936,6 +945,9 @@ func TestVerif_C06(t *testing.T) {
 	}
 	if want("lib") {
 		c06Lib(p, res)
+	}
+	if want("libserver") {
+		c06Srv(p, res)
 	}
 	if want("shapes") {
 		c06Shapes(p, res)
